@@ -73,6 +73,9 @@ Theorem C20_position_spec : forall tb num den t : Z, 0 < num -> 0 < beat_ticks t
   position (beat_base tb den) num t = position_of tb num den t.
 Proof. exact position_eq. Qed.
 
+Example C20_position_spec_ex : position (beat_base 480 8) 6 100000 = position_of 480 6 8 100000 /\ 0 < beat_ticks 480 8.
+Proof. split; vm_compute; reflexivity. Qed.
+
 (* the printers used in the lines: `{}` / `{:03}` print the decimal digits of the number (at least three for
    {:03}), `{:02x}` / `{:02X}` the two hexadecimal digits of a byte *)
 Theorem C20_printers : forall n : Z, 0 <= n ->
@@ -84,6 +87,10 @@ Proof.
   intros n H. unfold dec. replace (n <? 0) with false by lia.
   split; [exact (dec_nat_value n H)|]. split; [exact (dec3_spec n H)|]. intros H2. apply hex2_value. lia.
 Qed.
+
+Example C20_printers_ex : dec 1234 = [49; 50; 51; 52] /\ dec3 7 = [48; 48; 55] /\ dec3 1234 = [49; 50; 51; 52] /\
+  hex2 171 = [97; 98] /\ HEX2 171 = [65; 66] /\ dec (-8192) = [45; 56; 49; 57; 50].
+Proof. repeat split; vm_compute; reflexivity. Qed.
 
 (* non-vacuity: two tracks with every covered kind of message, a 6/8 signature, deltas 0x7F and 0x80; the
    hypotheses hold and the dump of the generated file is evaluated *)
@@ -99,17 +106,23 @@ Example C20_file_ex :
          (map normalize_and_sort ex_tracks) /\
   match generate_sorted 96 (map normalize_and_sort ex_tracks) with
   | Ok bin => zlen bin < 2 ^ 32 /\
-              match dump_midi bin with Ok ls => length ls = 25%nat | _ => False end
+              match dump_midi bin with Ok ls => length ls = 24%nat | _ => False end
   | _ => False
   end.
 Proof.
   split; [lia|]. split; [vm_compute; reflexivity|]. split; [repeat constructor|].
   split.
-  - vm_compute wire. vm_compute total_delta.
-    repeat constructor; cbn [fst snd dump_msg_ok]; unfold chan_ok, seven, is_byte; try lia;
-      try (intros Hd; first [discriminate Hd | eauto 8]);
-      try (exists [126; 127; 9; 1]; split; [reflexivity | repeat constructor; unfold seven; lia]).
-    exists 6, 3, [24; 8]. repeat split; try lia. vm_compute. reflexivity.
+  - set (ts := map normalize_and_sort ex_tracks). vm_compute in ts. subst ts.
+    repeat (apply Forall_cons || apply Forall_nil);
+      (split; [|vm_compute; reflexivity]);
+      match goal with |- Forall _ ?w => let x := fresh "w" in set (x := w); vm_compute in x; subst x end;
+      repeat (apply Forall_cons || apply Forall_nil);
+      (split; [cbn [fst]; lia|]); cbn [snd dump_msg_ok]; unfold chan_ok, seven, is_byte.
+    all: try lia.
+    all: repeat split; try lia; try (repeat constructor; lia); try (intros Hd; discriminate Hd).
+    + intros _. exists 6, 3, [24; 8]. repeat split; try lia; try (vm_compute; reflexivity).
+    + intros _. exists 7, 161, 32. reflexivity.
+    + exists [126; 127; 9; 1]. split; [reflexivity | repeat constructor; lia].
   - vm_compute. split; reflexivity.
 Qed.
 
@@ -122,7 +135,7 @@ Example C20_lines_ex :
 Proof.
   cbv zeta. split; [|split; [|vm_compute; reflexivity]].
   - repeat constructor; cbn [fst snd dump_msg_ok]; unfold chan_ok, seven, is_byte; try lia; try discriminate.
-    intros _. exists 3, 2, [24; 8]. repeat split; try lia. vm_compute. reflexivity.
+    intros _. exists 3, 2, [24; 8]. repeat split; try lia; try (vm_compute; reflexivity).
   - unfold sig_ok, beat_ticks. cbn [fst snd]. lia.
 Qed.
 
